@@ -53,6 +53,7 @@ func checkC05(r *Run) propMeta {
 	checkValueContainersUnwritten(r, cg, reach)
 	checkConstantIndexGuarded(r, cg, reach)
 	checkLoopProgress(r, cg, reach)
+	checkPopWithinArity(r, r.MustPkg("cypher/models/pgsql/translate"))
 	if gp := r.Pkg("graph"); gp != nil {
 		checkAccessorsPure(r, "C05-R11-accessors-pure", gp, "Properties")
 	}
